@@ -2,7 +2,7 @@
     check: WHEN the indexer executes the step at a faulty site it emits the diagnostic of that class on the
     range of the site (in the current file), and [diagnostics_persist]: a diagnostic, once emitted, is in the
     final list whatever is indexed afterwards (for all programs, fuels, states). *)
-From Coq Require Import List NArith Bool Lia.
+From Coq Require Import List NArith Bool Lia Arith.
 From TG.Model Require Import CoreAst Scope BangOps Indexer.
 From TG.Proofs Require Import ScopeBalance ScopeFrame GenericResp.
 Import ListNotations.
@@ -135,20 +135,62 @@ Proof.
     unfold seq, add_reference, upd; simpl. unfold add_pos. destruct (rng_empty _); reflexivity.
 Qed.
 
+Lemma trace_err : forall r k s, s_trace (snd (err r k s)) = s_trace s.
+Proof. intros. reflexivity. Qed.
+Lemma trace_index_annot : forall op an r s, s_trace (snd (index_annot op an r s)) = s_trace s.
+Proof.
+  intros op an r s. unfold index_annot.
+  destruct (bang_annot op); destruct an as [[t tr]|]; simpl; try reflexivity.
+  - unfold try_. pose proof (trace_index_ty t s). destruct (index_ty t s); assumption.
+  - unfold try_. pose proof (trace_index_ty t s). destruct (index_ty t s); assumption.
+Qed.
+Lemma dg_index_bang_ops : forall n op a vs r, resp diags_grow (index_bang_ops n op a vs r).
+Proof. apply (r_index_bang_ops diags_grow dg_refl dg_trans); dg_prim. Qed.
+Lemma dg_index_annot : forall op an r, resp diags_grow (index_annot op an r).
+Proof. apply (r_index_annot diags_grow dg_refl dg_trans); dg_prim. Qed.
+
 Theorem wrong_operator_arity : forall n op annot vs r s,
     arity_ok (bang_arity op) (length vs) = false ->
     In (here_rng s r, DArity) (s_diags (snd (index_bang (S n) op annot vs r s))).
 Proof.
-  intros n op annot vs r s H.
-  change (index_bang (S n) op annot vs r) with
-    (bind (match bang_annot op with
-           | AnUnexpect => seq (match annot with Some (_, tr) => err tr DUnexpectAnnot | None => ret tt end) (ret None)
-           | AnExpect => match annot with
-                         | Some (t, _) => try_ (index_ty t)
-                         | None => seq (err r DExpectAnnot) (ret None)
-                         end
-           | AnOptional => match annot with Some (t, _) => try_ (index_ty t) | None => ret None end
-           end)
-          (fun a => seq (if arity_ok (bang_arity op) (length vs) then ret tt else err r DArity)
-                        ((fun a => _) a))).
-Abort.
+  intros n op annot vs r s H. simpl. unfold bind.
+  pose proof (trace_index_annot op annot r s) as Ht.
+  destruct (index_annot op annot r s) as [[a|] s1] eqn:E; simpl in *.
+  - unfold seq. eapply dg_In; [apply dg_index_bang_ops|].
+    unfold check_arity. rewrite H. simpl. left. unfold here_rng, current_file. now rewrite Ht.
+  - (* index_annot always returns a value *)
+    exfalso. unfold index_annot in E.
+    destruct (bang_annot op); destruct annot as [[t tr]|]; simpl in E; unfold seq, try_ in E; simpl in E;
+      try discriminate; destruct (index_ty t s); discriminate.
+Qed.
+
+(** ---- type-incompatible initialiser / override *)
+Theorem incompatible_field_initialiser : forall n t i v s rid typ s1 vt s4,
+    current_record_id s = Some rid -> nthN (s_recs s) rid <> None ->
+    index_ty t s = (Some typ, s1) ->
+    s_recs s1 = s_recs s ->
+    (forall s2 fid s3, add_leaf (mkLeaf LField (i_name i) typ false (here_rng s (i_rng i))) s1 = (Some fid, s2) ->
+                       snd (record_mut rid (rec_add_field (i_name i) fid) s2) = s3 ->
+                       index_value n v s3 = (Some vt, s4)) ->
+    can_cast s4 vt typ = false ->
+    In (here_rng s4 (value_rng v), DFieldIncompat) (s_diags (snd (index_item n (IField t i (Some v)) s))).
+Proof.
+  intros n t i v s rid typ s1 vt s4 Hr Hv Hty Hrecs Hval Hc.
+  simpl. unfold bind at 1, state at 1, get; simpl. rewrite Hr.
+  unfold bind at 1, here at 1, get; simpl.
+  unfold bind at 1. rewrite Hty.
+  unfold bind at 1.
+  destruct (add_leaf (mkLeaf LField (i_name i) typ false
+             {| r_file := current_file s; r_lo := r_lo (i_rng i); r_hi := r_hi (i_rng i) |}) s1) as [[fid|] s2] eqn:El.
+  2:{ unfold add_leaf in El. discriminate. }
+  unfold seq at 1.
+  specialize (Hval s2 fid _ El eq_refl).
+  unfold bind at 1, lift at 1. unfold bind at 1. rewrite Hval.
+  unfold bind at 1, state at 1, get; simpl. rewrite Hc. simpl. now left.
+Qed.
+
+(** ---- syntax errors: every error of the parser (of every workspace file) is reported *)
+Theorem syntax_error_reported : forall w r, In r (ws_perrs w) -> In (r, DSyntax) (diagnostics w).
+Proof.
+  intros w r H. unfold diagnostics. apply in_or_app. left. apply in_map_iff. now exists r.
+Qed.
